@@ -86,6 +86,10 @@ func (h *c7hpred) caseKind() string {
 
 // a result / operand that is often around zero, so that "value > 0" has both outcomes
 func c7genCaseResult(rng *RNG, q *c7query) *c7hexp {
+	// the bare numeric GROUP BY column: its value reaches the filter in the carrier the rows use (a Go int), F10j
+	if q.gnum && q.ngroup > 0 && rng.Intn(5) == 0 {
+		return &c7hexp{kind: 'c', col: "g0", name: "g"}
+	}
 	switch rng.Intn(5) {
 	case 0, 1:
 		return &c7hexp{kind: 'L', lit: []int{0, 1, 1, 2, -1, 5}[rng.Intn(6)]}
